@@ -2,6 +2,7 @@ import Mathlib.Algebra.Star.Basic
 import Mathlib.Algebra.Star.BigOperators
 import Mathlib.Algebra.Field.Basic
 import DuneVerif.Proofs.C01
+import DuneVerif.Proofs.C01Store
 /-!
 C01 — dense matrices act as the linear map they store, in every representation.
 
@@ -699,5 +700,234 @@ example : vdot true (fun z : Int => -z) 2 (fun i => i + 1) (fun _ => 1) = -3 ∧
   decide
 example : (List.range 3).map (vAxpy (⟨3, fun i => (i : Int)⟩) 2 (fun _ => 5)).get = [10, 11, 12] := by decide
 example : (List.range 3).map (vNeg (⟨2, fun i => (i : Int) + 1⟩)).get = [-1, -2, 3] := by decide
+
+/-! ## object histories: handles, storage, and "no operation alters an operand it takes as input only"
+
+`Model/C01/Store.lean`: every object of a history is a register with a pointer to the storage cell it reads and writes;
+what the assignment operators of `ScalarVectorView` / `ScalarMatrixView` do with that pointer and what `transposedView`
+holds is read from the C++ source.  The theorems say that — with the tables as read from the current source — every
+executed operation is exactly one write, through its target object, of the value-level result into the target's own cell:
+every other cell keeps its content (in particular the scalar variable behind a view that was only read), every object keeps
+referring to the storage it was created for, and the written cell holds the algebraic result for the stored entries.  A
+table saying `reseat` (`dataP_ = other.dataP_`) or `copy` (a view that copies its matrix) breaks `seq_step_frame` /
+`seq_init_wf`. -/
+
+section histories
+variable (st st' : SeqState R)
+
+/-- **Frame.**  An executed operation keeps the store well formed, leaves every object's kind and referent unchanged,
+writes the cell of its target object — an owning object or scalar view of the store — and no other cell. -/
+theorem seq_step_frame [Div R] (op : SOp R) (hwf : st.wf) (h : seqStep conj st op = some st') :
+    st'.wf ∧ st'.regs = st.regs ∧ op.target < st.size ∧ st.kind op.target ≠ .tv
+    ∧ (∀ i, i ≠ op.target → st'.buf i = st.buf i)
+    ∧ (st'.buf op.target).rows = (opVal conj st op).rows ∧ (st'.buf op.target).cols = (opVal conj st op).cols
+    ∧ (∀ r c, r < (opVal conj st op).rows → c < (opVal conj st op).cols →
+        (st'.buf op.target).e r c = (opVal conj st op).e r c) := by
+  obtain ⟨a, b, c, d, e, _⟩ := step_frame conj st st' op hwf h
+  obtain ⟨f, g, k⟩ := step_target conj st st' op hwf h
+  exact ⟨a, b, c, d, e, f, g, k⟩
+
+/-- `t += s`, `t -= s`, `t.axpy(k,s)`, `t *= k`, `t = k` on objects of a history: the storage of `t` afterwards, entry by
+entry, from the storage of `t` and `s` before (vectors are 1 x n cells; a DiagonalMatrix stores its diagonal) -/
+theorem seq_vs_ops_spec [Div R] (hwf : st.wf) (t s : Nat) (k : R) (r c : Nat)
+    (hr : r < (st.buf t).rows) (hc : c < (st.buf t).cols) :
+    (seqStep conj st (.add t s) = some st' → (st'.buf t).e r c = (st.buf t).e r c + (st.buf s).e r c)
+    ∧ (seqStep conj st (.sub t s) = some st' → (st'.buf t).e r c = (st.buf t).e r c - (st.buf s).e r c)
+    ∧ (seqStep conj st (.axpy t k s) = some st' → (st'.buf t).e r c = (st.buf t).e r c + k * (st.buf s).e r c)
+    ∧ (seqStep conj st (.scale t k) = some st' → (st'.buf t).e r c = k * (st.buf t).e r c)
+    ∧ (seqStep conj st (.fill t k) = some st' → (st'.buf t).e r c = k) := by
+  have two : ∀ (o : OpK) (op : SOp R), (opOk st op = true → opOk.pair st o t s = true) → op.target = t →
+      seqStep conj st op = some st' →
+      st.rd t = st.buf t ∧ st.rd s = st.buf s
+      ∧ (∀ r c, r < (opVal conj st op).rows → c < (opVal conj st op).cols → (st'.buf t).e r c = (opVal conj st op).e r c) := by
+    intro o op hp htg h
+    have hok := (seqStep_eq conj st st' op h).1
+    obtain ⟨ht, hs, _, hkt, hks, _, _⟩ := pair_facts st o t s (hp hok)
+    have f := step_target conj st st' op hwf h
+    rw [htg] at f
+    exact ⟨rd_own st hwf t ht hkt, rd_own st hwf s hs hks, f.2.2⟩
+  have one : ∀ (op : SOp R), op.target = t → seqStep conj st op = some st' →
+      st.rd t = st.buf t
+      ∧ (∀ r c, r < (opVal conj st op).rows → c < (opVal conj st op).cols → (st'.buf t).e r c = (opVal conj st op).e r c) := by
+    intro op htg h
+    obtain ⟨_, _, ht, hk, _, _⟩ := step_frame conj st st' op hwf h
+    rw [htg] at ht hk
+    have f := step_target conj st st' op hwf h
+    rw [htg] at f
+    exact ⟨rd_own st hwf t ht hk, f.2.2⟩
+  refine ⟨?_, ?_, ?_, ?_, ?_⟩
+  · intro h
+    obtain ⟨e1, e2, f⟩ := two .add (.add t s) (fun x => x) rfl h
+    have := f r c (by simp only [opVal, e1]; exact hr) (by simp only [opVal, e1]; exact hc)
+    rw [this]; simp only [opVal, e1, e2]
+    rw [(mat_ops_spec (st.buf t) (st.buf s) k k r c).1, if_pos hc]
+  · intro h
+    obtain ⟨e1, e2, f⟩ := two .sub (.sub t s) (fun x => x) rfl h
+    have := f r c (by simp only [opVal, e1]; exact hr) (by simp only [opVal, e1]; exact hc)
+    rw [this]; simp only [opVal, e1, e2]
+    rw [(mat_ops_spec (st.buf t) (st.buf s) k k r c).2.1, if_pos hc]
+  · intro h
+    obtain ⟨e1, e2, f⟩ := two .axpy (.axpy t k s) (fun x => x) rfl h
+    have := f r c (by simp only [opVal, e1]; exact hr) (by simp only [opVal, e1]; exact hc)
+    rw [this]; simp only [opVal, e1, e2]
+    rw [(mat_ops_spec (st.buf t) (st.buf s) k k r c).2.2.2.1, if_pos hc]
+  · intro h
+    obtain ⟨e1, f⟩ := one (.scale t k) rfl h
+    have := f r c (by simp only [opVal, e1]; exact hr) (by simp only [opVal, e1]; exact hc)
+    rw [this]; simp only [opVal, e1]
+    rw [(mat_ops_spec (st.buf t) (st.buf t) k k r c).2.2.1, if_pos hc]
+  · intro h
+    obtain ⟨e1, f⟩ := one (.fill t k) rfl h
+    have := f r c (by simp only [opVal, e1]; exact hr) (by simp only [opVal, e1]; exact hc)
+    rw [this]; rfl
+
+/-- `t = s`: afterwards the storage of `t` holds the entries of `s` (a DiagonalMatrix assigned to a dense matrix is
+expanded, zeros off the diagonal); that `s`'s own storage is untouched is `seq_step_frame` -/
+theorem seq_asg_spec [Div R] (hwf : st.wf) (t s : Nat) (h : seqStep conj st (.asg t s) = some st') :
+    (st.kind s = .dg ∧ st.kind t ≠ .dg →
+      (st'.buf t).rows = (st.buf s).cols ∧ (st'.buf t).cols = (st.buf s).cols
+      ∧ ∀ r c, r < (st.buf s).cols → c < (st.buf s).cols →
+          (st'.buf t).e r c = if r = c then (st.buf s).e 0 r else 0)
+    ∧ (¬ (st.kind s = .dg ∧ st.kind t ≠ .dg) →
+      (st'.buf t).rows = (st.buf s).rows ∧ (st'.buf t).cols = (st.buf s).cols
+      ∧ ∀ r c, r < (st.buf s).rows → c < (st.buf s).cols → (st'.buf t).e r c = (st.buf s).e r c) := by
+  have hok := (seqStep_eq conj st st' _ h).1
+  obtain ⟨_, hs, _, _, hks, _, _⟩ := pair_facts st .asg t s hok
+  have es : st.rd s = st.buf s := rd_own st hwf s hs hks
+  obtain ⟨f1, f2, f3⟩ := step_target conj st st' _ hwf h
+  simp only [SOp.target, opVal, es, asgVal] at f1 f2 f3
+  refine ⟨fun hd => ?_, fun hd => ?_⟩
+  · have hc : (st.kind s == RKind.dg && st.kind t != RKind.dg) = true := by simp [hd.1, hd.2]
+    rw [hc, if_pos rfl] at f1 f2 f3
+    have hsh := loop_mupd_shape (st.buf s).cols (fun i _ => i) (fun i _ => i) (fun i _ => (st.buf s).e 0 i)
+      (zeroMat (st.buf s).cols (st.buf s).cols)
+    have hrows : (assignFrom (Rep.diag (st.buf s).cols ((st.buf s).e 0))).rows = (st.buf s).cols := hsh.1
+    have hcols : (assignFrom (Rep.diag (st.buf s).cols ((st.buf s).e 0))).cols = (st.buf s).cols := hsh.2
+    refine ⟨f1.trans hrows, f2.trans hcols, ?_⟩
+    intro r c hr hc'
+    rw [f3 r c (by rw [hrows]; exact hr) (by rw [hcols]; exact hc'),
+      (assign_spec (R := R) (.diag (st.buf s).cols ((st.buf s).e 0)) r c hr).1]
+    simp [Rep.toFull]
+  · have hc : (st.kind s == RKind.dg && st.kind t != RKind.dg) = false := by
+      by_cases h1 : st.kind s = .dg
+      · have h2 : ¬ st.kind t ≠ .dg := fun x => hd ⟨h1, x⟩
+        simp [h1, not_not.mp h2]
+      · simp [h1]
+    rw [hc] at f1 f2 f3
+    exact ⟨f1, f2, f3⟩
+
+/-- `t.leftmultiply(s)`, `t.rightmultiply(s)` (also FieldMatrix<K,1,1>'s and FieldMatrix's own overloads): the storage of
+`t` afterwards is the matrix product of the stored entries -/
+theorem seq_mul_spec [Div R] (hwf : st.wf) (t s : Nat) (r c : Nat)
+    (hr : r < (st.buf t).rows) (hc : c < (st.buf t).cols) :
+    (seqStep conj st (.lmul t s) = some st' →
+      (st'.buf t).e r c = ∑ k ∈ range (st.buf t).rows, (st.buf s).e r k * (st.buf t).e k c)
+    ∧ (seqStep conj st (.rmul t s) = some st' →
+      (st'.buf t).e r c = ∑ k ∈ range (st.buf t).cols, (st.buf t).e r k * (st.buf s).e k c) := by
+  refine ⟨fun h => ?_, fun h => ?_⟩
+  · have hok := (seqStep_eq conj st st' _ h).1
+    rw [opOk_lmul, Bool.and_eq_true] at hok
+    obtain ⟨ht, hs, _, hkt, hks, _, _⟩ := pair_facts st .lmul t s hok.1
+    have et : st.rd t = st.buf t := rd_own st hwf t ht hkt
+    have es : st.rd s = st.buf s := rd_own st hwf s hs hks
+    obtain ⟨_, _, f3⟩ := step_target conj st st' _ hwf h
+    simp only [SOp.target, opVal, et, es] at f3
+    have sp := leftmul_spec (st.buf t) (st.buf s) r c
+    rw [f3 r c (by rw [sp.2.1]; exact hr) (by rw [sp.2.2.1]; exact hc), sp.1, if_pos ⟨hr, hc⟩]
+  · have hok := (seqStep_eq conj st st' _ h).1
+    rw [opOk_rmul, Bool.and_eq_true] at hok
+    obtain ⟨ht, hs, _, hkt, hks, _, _⟩ := pair_facts st .rmul t s hok.1
+    have et : st.rd t = st.buf t := rd_own st hwf t ht hkt
+    have es : st.rd s = st.buf s := rd_own st hwf s hs hks
+    have hsq : (st.buf t).rows = (st.buf t).cols := by
+      have := hok.2; rw [et] at this; simpa using this
+    obtain ⟨_, _, f3⟩ := step_target conj st st' _ hwf h
+    simp only [SOp.target, opVal, et, es, rmulVal] at f3
+    have sp := rightmul_spec (st.buf t) (st.buf s) r c
+    by_cases h11 : (st.kind t == RKind.fm && (st.buf t).rows == 1) = true
+    · rw [h11, if_pos rfl] at f3
+      have h1 : (st.buf t).rows = 1 := by
+        simp only [Bool.and_eq_true, beq_iff_eq] at h11; exact h11.2
+      have hc1 : (st.buf t).cols = 1 := by rw [← hsq, h1]
+      have hr0 : r = 0 := by omega
+      have hc0 : c = 0 := by omega
+      subst hr0; subst hc0
+      rw [f3 0 0 (by simp [rightmultiply11]) (by simp [rightmultiply11]), hc1]
+      simp [rightmultiply11]
+    · rw [Bool.not_eq_true] at h11
+      rw [h11] at f3
+      simp only [Bool.false_eq_true, if_false] at f3
+      by_cases hff : (st.kind t == RKind.fm && st.kind s == RKind.fm) = true
+      · rw [hff, if_pos rfl] at f3
+        rw [f3 r c (by rw [sp.2.2.2.2.1]; exact hr) (by rw [sp.2.2.2.2.2.1]; exact hc), sp.2.2.2.1, sp.1, if_pos ⟨hr, hc⟩]
+      · rw [Bool.not_eq_true] at hff
+        rw [hff] at f3
+        simp only [Bool.false_eq_true, if_false] at f3
+        rw [f3 r c (by rw [sp.2.1]; exact hr) (by rw [sp.2.2.1]; exact hc), sp.1, if_pos ⟨hr, hc⟩]
+
+/-- what a matrix object of a history is as a kernel operand: an owning matrix / scalar view is the representation of its
+own cell; a transposed view is the transpose of the *current* content of the cell of the object it was made from -/
+theorem seq_view_spec [Div R] (hwf : st.wf) (a : Nat) (ha : a < st.size) :
+    (st.kind a ≠ .tv → st.matRep a = regRep (st.kind a) (st.buf a))
+    ∧ (st.kind a = .tv → st.matRep a = .transposed (regRep (st.kind (st.wraps a)) (st.buf (st.wraps a)))
+        ∧ (st.matRep a).toFull = transposeMat (regRep (st.kind (st.wraps a)) (st.buf (st.wraps a))).toFull) := by
+  refine ⟨fun hk => ?_, fun hk => ?_⟩
+  · have : (st.kind a == RKind.tv) = false := by simp [hk]
+    simp only [SeqState.matRep, this, Bool.false_eq_true, if_false, rd_own st hwf a ha hk]
+  · have e : st.matRep a = .transposed (regRep (st.kind (st.wraps a)) (st.buf (st.wraps a))) := by
+      simp only [SeqState.matRep, hk, beq_self_eq_true, if_true, rd_view st hwf a ha hk]
+    exact ⟨e, by rw [e]; rfl⟩
+
+/-- `a.kernel([alpha,] x, y)` on objects of a history (`a` possibly a transposed view): the storage of `y` afterwards is the
+algebraic definition of the kernel for the full matrix with the entries `a` shows, applied to the storage of `x` and `y` -/
+theorem seq_kern_spec [Div R] (h0 : conj 0 = 0) (hwf : st.wf) (k : KName) (a x y : Nat) (alpha : R)
+    (h : seqStep conj st (.kern k a alpha x y) = some st') (i : Nat) (hi : i < (st.buf y).cols) :
+    (st'.buf y).e 0 i = kernelSpec conj k (st.matRep a).toFull alpha ((st.buf x).e 0) ((st.buf y).e 0) i
+    ∧ (st'.buf y).rows = 1 ∧ (st'.buf y).cols = (st.buf y).cols := by
+  have hok := (seqStep_eq conj st st' _ h).1
+  obtain ⟨_, hx, hy, _, hkx, hky, _, hoff, _, _, _⟩ := kern_facts st k a x y alpha hok
+  have ex : st.rd x = st.buf x := rd_own st hwf x hx hkx
+  have ey : st.rd y = st.buf y := rd_own st hwf y hy hky
+  obtain ⟨f1, f2, f3⟩ := step_target conj st st' _ hwf h
+  simp only [SOp.target, opVal, ex, ey, kernVal] at f1 f2 f3
+  refine ⟨?_, f1, f2⟩
+  rw [f3 0 i (by decide) hi]
+  exact rep_interchangeable conj h0 (st.matRep a) k hoff alpha ((st.buf x).e 0) ⟨(st.buf y).cols, (st.buf y).e 0⟩ i
+
+/-- **Histories.**  Along an executed history every store is well formed, the objects keep their kinds and referents, and
+consecutive stores are related by `seqStep` — hence by `seq_step_frame` and the per-operation theorems. -/
+theorem seq_trace_spec [Div R] (hwf : st.wf) (ops : List (SOp R)) (sts : List (SeqState R))
+    (h : seqTrace conj st ops = some sts) :
+    sts.length = ops.length ∧
+    ∀ (k : Nat) (prev cur : SeqState R) (op : SOp R),
+      (st :: sts)[k]? = some prev → sts[k]? = some cur → ops[k]? = some op →
+      seqStep conj prev op = some cur ∧ prev.wf ∧ cur.wf ∧ cur.regs = st.regs :=
+  trace_steps conj ops st sts hwf h
+
+/-- the store right after the declarations is well formed (a transposed view refers to the cell of its matrix: `Gen.tvHolds`
+read from transpose.hh), and every other object starts with its declared entries in its own cell -/
+theorem seq_init_wf [Div R] (ds : List (Decl R)) (hds : declsOk ds) :
+    (initState ds).wf ∧ (initState ds).size = ds.length
+    ∧ ∀ i d, ds[i]? = some d → (initState ds).kind i = d.kind ∧ (d.kind ≠ .tv → (initState ds).buf i = d.init) :=
+  ⟨init_wf ds hds, init_size ds, fun i d h => ⟨init_kind ds i d h, init_buf ds i d h⟩⟩
+
+end histories
+
+def exDecls : List (Decl Int) :=
+  [⟨.sc, ⟨1, 1, fun _ _ => 1⟩, 0⟩, ⟨.sc, ⟨1, 1, fun _ _ => 2⟩, 1⟩, ⟨.sv, ⟨1, 1, fun _ _ => 5⟩, 2⟩, ⟨.tv, zeroMat 0 0, 2⟩]
+
+-- non-vacuity: two scalar views, `v0 = v1; v0 *= 3; v0 += v1; v0 = transposedView(M).mv(v1)`: the scalars behind them afterwards
+example : (seqTrace (fun z : Int => z) (initState exDecls) [.asg 0 1, .scale 0 3, .add 0 1, .fill 2 7, .kern .mv 3 0 1 0]).map
+    (fun sts => sts.map fun s => ((s.buf 0).e 0 0, (s.buf 1).e 0 0, (s.buf 2).e 0 0))
+    = some [(2, 2, 5), (6, 2, 5), (8, 2, 5), (8, 2, 7), (14, 2, 7)] := by decide
+
+example : declsOk exDecls := by
+  intro i d h hk
+  match i, h with
+  | 0, h => simp [exDecls] at h; subst h; simp at hk
+  | 1, h => simp [exDecls] at h; subst h; simp at hk
+  | 2, h => simp [exDecls] at h; subst h; simp at hk
+  | 3, h => simp [exDecls] at h; subst h; exact ⟨_, rfl, by simp⟩
+  | n+4, h => simp [exDecls] at h
 
 end DV.C01
